@@ -459,7 +459,7 @@ def rule_pipeline(ctx):
         return res.finish(2)
 
     from .shortcut import _fn_of_def
-    STEP_NAMES = ("tokenizer_function", "find_iter", "n_gram_range", "split_regex", "captures_iter", "split", "normalize", "convert_to_lowercase", "nfkd", "nfkc", "nfc", "nfd", "to_lowercase", "to_uppercase")
+    STEP_NAMES = ("tokenizer_function", "find_iter", "n_gram_range", "split_regex", "captures_iter", "split", "normalize", "convert_to_lowercase", "nfkd", "nfkc", "nfc", "nfd", "to_lowercase", "to_uppercase", "stopwords")
 
     def steps(fn, depth=0, seen=None):
         """tokenisation steps of fn, private helpers of the crate followed (a pipeline split over helpers is the same pipeline)"""
@@ -495,7 +495,7 @@ def rule_pipeline(ctx):
                 res.violate("%s : document-not-prepared" % fn_key(g), "the document is handed to the vocabulary reader without the normalisation / lower-casing step that transform applies", fn_loc(g))
     sf_all = sf | prep_fit
     res.instance("tokenisation steps: fit %s / transform %s" % (sorted(map(str, sf_all)), sorted(map(str, st))))
-    core = lambda s: set(x for x in s if x in ("tokenizer_function", "find_iter", "n_gram_range", "captures_iter", "split") or "NGramList" in str(x) or "transform_string" in str(x))
+    core = lambda s: set(x for x in s if x in ("tokenizer_function", "find_iter", "n_gram_range", "captures_iter", "split", "stopwords") or "NGramList" in str(x) or "transform_string" in str(x))
     if core(sf_all) == core(st):
         res.ok()
     else:
@@ -735,8 +735,8 @@ def rule_regexfresh(ctx):
 
 
 def rules(tier):
-    from . import carry, c04
-    return [rule_regexfresh, rule_views, rule_ngrams, rule_pipeline, rule_docfreq, rule_window, rule_reindex, rule_lookup, rule_row, rule_tfidf,
+    from . import carry, c04, iteroverride
+    return [iteroverride.make_rule("R-C17-iter", {CRATE}, 1, "linfa-preprocessing (the n-gram walk)"), rule_regexfresh, rule_views, rule_ngrams, rule_pipeline, rule_docfreq, rule_window, rule_reindex, rule_lookup, rule_row, rule_tfidf,
             carry.make_clone_rule("R-C17-clone", {CRATE}, 8), carry.make_setter_rule("R-C17-override", {CRATE}, 4),
             c04.make_carry_rule("R-C17-carry", {"CountVectorizerParams"}, 4), c04.make_setter_value_rule("R-C17-setter", {"CountVectorizerParams", "TfIdfVectorizer"}, 6),
             carry.make_accessor_rule("R-C17-accessor", {"linfa_preprocessing"}, 6), carry.make_ctor_rule("R-C17-ctor", {"linfa_preprocessing"}, 2)]
